@@ -218,6 +218,8 @@ def sources(tier):
         out.append((h, None))
         out.append((h, ("ml-strings",)))
         out.append((h, ("ml-idents",)))
+        out.append((h, ("crlf-strings",)))
+        out.append((h, ("crlf-idents",)))
     return out
 
 
@@ -233,12 +235,19 @@ def build_trees(sql, d, variant):
     if variant:
         t = trees[0]
         nodes = list(t.walk())
-        if variant[0] == "ml-strings":  # every string literal gets a line break in its text
+        if variant[0] in ("ml-strings", "crlf-strings"):  # every string literal gets a line break (LF / CR LF / lone CR) in its text
             lits = [n for n in nodes if isinstance(n, exp.Literal) and n.is_string]
             if not lits:
                 return "no-such-position", None
             for k, n in enumerate(lits):
-                n.set("this", f"{n.this}\n  ml{k}\n")
+                n.set("this", f"{n.this}\n  ml{k}\n" if variant[0] == "ml-strings" else f"{n.this}\r\n  c{k}\rd\r\n")
+        elif variant[0] == "crlf-idents":
+            ids = [n for n in nodes if isinstance(n, exp.Identifier) and isinstance(n.parent, (exp.Column, exp.Alias, exp.TableAlias))]
+            if not ids:
+                return "no-such-position", None
+            for k, n in enumerate(ids):
+                n.set("this", f"{n.this}\r\n id")
+                n.set("quoted", True)
         elif variant[0] == "ml-idents":  # every column / alias identifier becomes a quoted one with a line break
             ids = [n for n in nodes if isinstance(n, exp.Identifier) and isinstance(n.parent, (exp.Column, exp.Alias, exp.TableAlias))]
             if not ids:
